@@ -418,8 +418,10 @@ def hoItem : HO.Item → String
   | .action em => s!"A:{String.ofList em.ev.ses}:{em.ev.ts}"
 
 /-- C10 on the sequence of lines of the output file -/
-def specHandoff (ss : List HSess) (torn : String) (raw : List String) : Option String :=
-  let expected := ss.flatMap fun s => s!"L:{s.pid}" :: (hoEvents s).map fun e => s!"A:{s.ses}:{e.1.ts}"
+def noiseItems (n : Nat) : List String := (List.range n).map fun i => s!"F:{20000 + i}"
+
+def specHandoff (ss : List HSess) (noise : Nat) (torn : String) (raw : List String) : Option String :=
+  let expected := (ss.flatMap fun s => s!"L:{s.pid}" :: (hoEvents s).map fun e => s!"A:{s.ses}:{e.1.ts}") ++ noiseItems noise
   if torn != "0" then some "torn-or-interleaved-line"
   else if raw.eraseDups.length ≠ raw.length then some "event-written-twice"
   else if !(raw.all fun x => expected.contains x) then some "unexpected-event"
@@ -450,17 +452,19 @@ def handoffLine (f : List String) : String :=
       let st0 : HO.St := { sshdTodo := ss.map hoLogin, auditTodo := ss.flatMap hoEvents }
       let sched := (ss.flatMap fun _ => [HO.Act.sshdWrite, HO.Act.handoff]) ++ (ss.flatMap hoEvents).map fun _ => HO.Act.audit
       let fin := HO.run st0 sched
-      let items := fin.out.map hoItem
+      let noise := ((kv rest "noise").bind String.toNat?).getD 0
+      -- failed logins of the noise stream: written by the sshd thread, never handed over
+      let items := fin.out.map hoItem ++ noiseItems noise
       let sorted := (items.toArray.qsort (· < ·)).toList
       let obs := String.intercalate ";" ("T:0" :: sorted)
-      let sp := specHandoff ss "0" items
+      let sp := specHandoff ss noise "0" items
       let isp := match kv rest "raw" with
         | none => "-"
         | some x =>
           match x.splitOn "|" with
           | [t, its] =>
             let raw := if its == "" then [] else its.splitOn ";"
-            verdict (specHandoff ss ((t.drop 2).toString) raw)
+            verdict (specHandoff ss noise ((t.drop 2).toString) raw)
           | _ => "FAIL:unparsable-observation"
       s!"{id} {obs} spec={verdict sp} ispec={isp} dom=1 nt={if ss.length ≥ 2 then 1 else 0}"
   | _ => "!badline"
